@@ -29,6 +29,8 @@ def nontrivial(ln):
         s = G.untok(t[-1])
         i = s.find(b"://")
         return i >= 0 and any(c in s[i + 3:] for c in b":/?[")
+    if cmd == "uinto":
+        return True
     if cmd in ("ugetp", "ugetq"):
         segs = [G.untok(x) for x in t[1:]]
         return len(segs) >= 2 or any(not (chr(c).isalnum()) for s in segs for c in s)
@@ -150,6 +152,17 @@ def check_case(cx, ln, mo, co, spec):
             back = G.parse_split_out(m.group(2))
             if back is None or G.norm(back) != G.norm(segs):
                 cx.bad("reconstructed string does not feed back to the same options", ln, mo, co)
+                return
+    elif cmd == "uinto":
+        m = re.match(r"rc=0 into=(\d) chain=(\S+)$", co)
+        if m:
+            pc = G.parse_chain("rc=%s chain=%s" % (m.group(1), m.group(2)))
+            nums = [n for n, _ in pc[1]]
+            if m.group(1) != "1" or nums != sorted(nums) or \
+               any(n == 11 and v in (b".", b"..") for n, v in pc[1]) or \
+               nums.count(3) > 1 or nums.count(7) > 1 or (t[1] == "0" and (3 in nums or 7 in nums)):
+                cx.bad("coap_uri_into_optlist: options out of order, duplicated Uri-Host/Uri-Port, "
+                       "or a dot segment emitted", ln, mo, co)
                 return
     elif cmd == "uspl":
         s = G.untok(t[3])
@@ -278,6 +291,10 @@ def main(run):
             gen.append("uqol %d 15 %s" % (r.choice([0, 1, 2]), G.tok(s)))
     for i in range(n * 3 // 10):
         gen.append("uspl %d %s %s" % (r.random() < 0.25, caps, G.tok(G.gen_uri(r))))
+    if caps == "11111":
+        for i in range(n // 10):
+            dst, u = G.gen_into(r)
+            gen.append("uinto %d %s %s" % (r.random() < 0.8, dst, G.tok(u)))
     for i in range(n * 2 // 10):
         segs = G.gen_seglist(r)
         gen.append("%s %s" % (r.choice(["ugetp", "ugetq"]), " ".join(G.tok(x) for x in segs)))
